@@ -57,6 +57,9 @@ def model_snippet(model, limit=40):
 
 
 def discharge(eng: Engine, vc, timeout_ms):
+    g = z3.simplify(vc.goal)
+    if z3.is_true(g):
+        return {"status": "discharged", "solver": "simplifier", "time_s": 0.0}
     s = z3.Solver()
     s.set("timeout", timeout_ms)
     for ax in eng.reg.axioms:
